@@ -7,6 +7,7 @@ small expression language.  The canonical rendering of the atoms is compared wit
 schema of the rule (refs/effects_ref.py, derived from the calculus — Appendix A.1 of DESIGN.md).
 """
 import os
+import re
 import sys
 from fractions import Fraction as Fr
 
@@ -194,6 +195,7 @@ class Exec:
         self.f = facts['fns'][key]
         self.env = {}
         self.ctx = []
+        self.enum_subjects = {}  # printed term -> def path of the fieldless enum it has as type
         self.effects = []        # (ctx tuple of str, text)
         self.io_set = set()      # inputs / outputs already overwritten (later reads see the post-state)
         self.atoms = []          # structured effects: (ctx, primitive, argument values)
@@ -239,6 +241,116 @@ class Exec:
                 out += r
             return out
         return None
+
+    @staticmethod
+    def _variant_pat(p):
+        """variant names (last path segment) a pattern of enum constants admits: [..] / 'wild' / None"""
+        k = p.get('k')
+        if k == 'Wild':
+            return 'wild'
+        if k == 'Ref':
+            return Exec._variant_pat(p['sub'])
+        if k == 'Path':
+            pa = p['res'].get('path') or ''
+            if 'Ctor' in (p['res'].get('dk') or '') or 'Variant' in (p['res'].get('dk') or '') or p['res'].get('k') == 'Def':
+                return [pa.rsplit('::', 1)[-1]] if pa else None
+            return None
+        if k == 'Or':
+            out = []
+            for sp in p['sub']:
+                r = Exec._variant_pat(sp)
+                if not isinstance(r, list):
+                    return None
+                out += r
+            return out
+        return None
+
+    def note_enum(self, text, node):
+        """remember that the printed term `text` has the type of a fieldless enum of the crate (the guard comparison enumerates its variants)"""
+        t = (hir.strip(node).get('ty') or node.get('ty') or '').replace('&', '').replace('mut ', '').strip()
+        a = self.facts.get('adts', {}).get(t)
+        if a and a.get('kind') == 'enum' and all(not v['fields'] for v in a['variants']):
+            self.enum_subjects[text] = t
+
+    def arm_cond(self, sc, sc_node, pat):
+        """condition under which `pat` matches the scrutinee, as printed text ('true' when irrefutable); binds the pattern's names.  None: not understood"""
+        k = pat.get('k')
+        if k == 'Wild':
+            return 'true'
+        if k == 'Bind' and not pat.get('sub'):
+            self.env[pat['id']] = sc
+            return 'true'
+        if k == 'Ref':
+            return self.arm_cond(sc, sc_node, pat['sub'])
+        lits = self._lit_pat(pat)
+        if isinstance(lits, list):
+            parts = sorted('%s == %s' % tuple(sorted([str(v_), show(sc)])) for v_ in lits)
+            return parts[0] if len(parts) == 1 else '(%s)' % ' or '.join(parts)
+        vs = self._variant_pat(pat)
+        if isinstance(sc, Val) and sc.tag == 'optget':
+            if k == 'TupleStruct' and (hir.pat_ctor(pat) or '').endswith('Some') and len(pat['sub']) == 1:
+                inner = pat['sub'][0]
+                while inner.get('k') == 'Ref':
+                    inner = inner['sub']
+                if inner.get('k') in ('Bind', 'Wild') and not inner.get('sub'):
+                    if inner.get('k') == 'Bind':
+                        self.env[inner['id']] = sc.a[2]
+                    return '%s < %s' % (show(sc.a[1]), show(sc.a[0]))
+                return None
+            if isinstance(vs, list) and vs == ['None']:
+                return _negate('%s < %s' % (show(sc.a[1]), show(sc.a[0])))
+            return None
+        if isinstance(vs, list) and not (isinstance(sc, Val) and sc.tag == 'unk'):
+            st = show(sc)
+            self.note_enum(st, sc_node)
+            parts = sorted(set('%s == %s' % tuple(sorted([v_, st])) for v_ in vs))
+            return parts[0] if len(parts) == 1 else '(%s)' % ' or '.join(parts)
+        return None
+
+    def _match_as_chain(self, s):
+        """`match` whose arms are enum constants / option shapes of a modelled value (with optional guards): an if / else-if chain.
+        Returns False (nothing emitted) when some arm is not understood or an arm returns / continues."""
+        sc = self.ev(s['scrut'])
+        if isinstance(sc, Val) and sc.tag == 'unk':
+            return False
+        saved_env = dict(self.env)
+        saved_subj = dict(self.enum_subjects)
+        arms = []
+        for a in s['arms']:
+            c = self.arm_cond(sc, s['scrut'], a['pat'])
+            if c is None or any(n.get('k') in ('Ret', 'Continue', 'Break') for n in hir.nodes(a['body'], into_closures=False)):
+                self.env, self.enum_subjects = saved_env, saved_subj
+                return False
+            g = None
+            if a.get('guard') is not None:
+                g = self.cond_text(a['guard'])
+                if '<' in g and '>' in g and re.search(r'<[a-zA-Z][a-zA-Z0-9_ :.-]*>', g):
+                    self.env, self.enum_subjects = saved_env, saved_subj
+                    return False
+            arms.append((a, c, g))
+        prev = []
+        for a, c, g in arms:
+            conj = [x for x in ([c] if c != 'true' else []) + ([g] if g not in (None, 'true') else [])]
+            full = 'true' if not conj else conj[0] if len(conj) == 1 else '(%s)' % ' and '.join(sorted(conj))
+            n_push = 0
+            for pc in prev:
+                self.ctx.append('if ' + _negate(pc))
+                n_push += 1
+            for x in conj:
+                self.ctx.append('if ' + x)
+                n_push += 1
+            body = hir.strip(a['body'])
+            if hir.diverges(body) or (any('panic' in (hir.callee(c2) or '') for c2 in hir.calls(a['body'])) and not any(
+                    (n.get('callee') or '').startswith(GL) for n in hir.nodes(a['body']) if n.get('k') == 'MethodCall')):
+                self.emit('panic')
+            else:
+                self.block(hir.stmts_of(a['body']))
+            if n_push:
+                del self.ctx[len(self.ctx) - n_push:]
+            if full == 'true':
+                break
+            prev.append(full)
+        return True
 
     def unk_stmt(self, what, node):
         """statement-level construct that is not modelled: only matters if it can hide a graph effect"""
@@ -341,6 +453,9 @@ class Exec:
                 return Val('built', ())
             if items:
                 return Val('tuple', [self.ev(x) for x in items])
+            c_ = hir.callee(e) or ''
+            if not e['args'] and (e.get('ty') or '').replace('std::vec::', '').replace('alloc::vec::', '').startswith('Vec<') and c_.endswith(('::new', '::default')):
+                return Val('built', ())      # Vec::new() is vec![]
             return self.call(e)
         if k == 'Array':
             return Val('tuple', [self.ev(x) for x in e['items']])
@@ -452,6 +567,9 @@ class Exec:
             return _negate(self.cond_text(e['e']))
         if k == 'Binary' and e['op'] in ('Eq', 'Ne', 'Lt', 'Le', 'Gt', 'Ge'):
             l, r = show(self.ev(e['l'])), show(self.ev(e['r']))
+            if e['op'] in ('Eq', 'Ne'):
+                self.note_enum(l, e['l'])
+                self.note_enum(r, e['r'])
             if e['op'] in ('Eq', 'Ne') and l > r:
                 l, r = r, l
             return '%s %s %s' % (l, {'Eq': '==', 'Ne': '!=', 'Lt': '<', 'Le': '<=', 'Gt': '>', 'Ge': '>='}[e['op']], r)
@@ -461,8 +579,45 @@ class Exec:
             rv, av = self.ev(e['recv']), self.ev(e['args'][0])
             if not (isinstance(rv, Val) and rv.tag == 'unk') and not (isinstance(av, Val) and av.tag == 'unk'):
                 return '%s in %s' % (show(av), show(rv))
+        if k == 'MethodCall' and not e['args'] and e.get('ty') == 'bool':
+            rt = (hir.strip(e['recv']).get('ty') or '').replace('&', '').replace('mut ', '').strip()
+            a_ = self.facts.get('adts', {}).get(rt)
+            if a_ and a_.get('kind') == 'enum' and all(not v_['fields'] for v_ in a_['variants']) and (e.get('callee') or '').startswith(rt + '::'):
+                rv = self.ev(e['recv'])
+                if not (isinstance(rv, Val) and rv.tag == 'unk'):
+                    self.note_enum(show(rv), e['recv'])
+                    return '%s.%s' % (show(rv), e['name'])
         if k == 'LetCond':
-            return '%s ~ %s' % (show(self.ev(e['init'])), hir.pp_pat(e['pat']))
+            scv = self.ev(e['init'])
+            saved = dict(self.env)
+            c_ = self.arm_cond(scv, e['init'], e['pat'])
+            if c_ is not None and not (isinstance(scv, Val) and scv.tag == 'unk'):
+                return c_
+            self.env = saved
+            return '%s ~ %s' % (show(scv), hir.pp_pat(e['pat']))
+        if k == 'Match' and e['arms'] and all(hir.lit_bool(hir.strip(a['body'])) is not None and not a.get('guard') for a in e['arms']) \
+                and not all(self._lit_pat(a['pat']) is not None for a in e['arms']):
+            # matches!(x, A | B) over enum constants / option shapes: an if-chain of pattern conditions
+            scv = self.ev(e['scrut'])
+            saved = dict(self.env)
+            prev, disj, ok_ = [], [], not (isinstance(scv, Val) and scv.tag == 'unk')
+            for a in e['arms']:
+                c_ = self.arm_cond(scv, e['scrut'], a['pat']) if ok_ else None
+                if c_ is None:
+                    ok_ = False
+                    break
+                if hir.lit_bool(hir.strip(a['body'])):
+                    conj = sorted(set([_negate(x) for x in prev] + ([c_] if c_ != 'true' else [])))
+                    disj.append('true' if not conj else conj[0] if len(conj) == 1 else '(%s)' % ' and '.join(conj))
+                if c_ == 'true':
+                    break
+                prev.append(c_)
+            self.env = saved
+            if ok_:
+                disj = sorted(set(disj))
+                if 'true' in disj:
+                    return 'true'
+                return 'false' if not disj else disj[0] if len(disj) == 1 else '(%s)' % ' or '.join(disj)
         if k == 'Match' and e['arms'] and all(hir.lit_bool(hir.strip(a['body'])) is not None and not a.get('guard') and self._lit_pat(a['pat']) is not None for a in e['arms']):
             # matches!(x, 3 | 5): a disjunction of equalities (only true-arms before the first wildcard count)
             sc = show(self.ev(e['scrut']))
@@ -706,6 +861,12 @@ class Exec:
             return Val('coll', 'enumerate ' + show(r), Val('vtx', ''))
         if n == 'len' and isinstance(r, Val) and r.tag == 'param':
             return Val('int', Poly.sym('|%s|' % r.a[0]))
+        if n == 'get' and len(args) == 1 and isinstance(r, Val) and r.tag in ('param', 'coll') and 'Option<' in (e.get('ty') or ''):
+            iv = self.ev(args[0])
+            if isinstance(iv, Val) and (iv.tag in ('idx', 'vtx', 'elem') or (iv.tag == 'int' and iv.a[0].is_const())):
+                nm_ = r.a[0] if r.tag == 'param' else show(r)
+                cv_ = r if r.tag == 'coll' else Val('coll', r.a[0], Val('vtx', ''))
+                return Val('optget', Val('int', Poly.sym('|%s|' % nm_)), iv, Val('elem', cv_, '%s[%s]' % (nm_, show(iv))))
         if n == 'push' and isinstance(r, Val) and r.tag == 'built' and len(args) == 1:
             l = hir.local(recv)
             if l:
@@ -972,6 +1133,8 @@ class Exec:
                 self.ctx.append('if ' + _negate(c))
             self._ret_arm_conds = []
             return
+        if k == 'Match' and self._match_as_chain(s):
+            return
         if k == 'Match':
             sc = self.ev(s['scrut'])
             for a in s['arms']:
@@ -1066,50 +1229,114 @@ def _split_and(c):
     return [c]
 
 
-def norm_line(line):
-    """normal form of one effect line `ctx1 | ctx2 : effect`: loop / case contexts keep their order, every `if` context is moved behind them and all
-    conditions are merged into one sorted conjunction (an `if` that does not depend on an inner loop may stand outside it or inside it, and
-    `if a { if b {..} }` is `if a && b {..}`: the summaries are equal)"""
-    if ' : ' not in line:
-        return line
-    ctx, eff = line.split(' : ', 1)
-    parts = ctx.split(' | ')
-    if not all(p_.startswith(('each ', 'for ', 'case ', 'if ')) for p_ in parts):
-        return line
+def _norm_ctx_parts(parts):
     keep = [p_ for p_ in parts if not p_.startswith('if ')]
     conds = sorted(set(q for p_ in parts if p_.startswith('if ') for q in _split_and(p_[3:])))
     conds = [c_ for c_ in conds if c_ != 'true']
     if conds:
         keep.append('if ' + (conds[0] if len(conds) == 1 else '(%s)' % ' and '.join(conds)))
-    return ' | '.join(keep) + ' : ' + eff
+    return keep
 
 
-def effects_of(facts, key, param_names=None, no_vars=False):
+def _norm_embedded(text):
+    """contexts quoted inside a value (`count[each .. | if a | if b]`, `[if a | if b]`) get the same normal form as the contexts of a line"""
+    out, i = '', 0
+    while i < len(text):
+        if text[i] == '[' and text.startswith(('each ', 'for ', 'if ', 'case '), i + 1):
+            depth, j = 0, i
+            while j < len(text):
+                depth += text[j] in '[('
+                depth -= text[j] in '])'
+                if depth == 0:
+                    break
+                j += 1
+            inner = text[i + 1:j]
+            parts, d2, cur, k2 = [], 0, '', 0
+            while k2 < len(inner):
+                ch = inner[k2]
+                d2 += ch in '[('
+                d2 -= ch in '])'
+                if d2 == 0 and inner.startswith(' | ', k2):
+                    parts.append(cur)
+                    cur = ''
+                    k2 += 3
+                    continue
+                cur += ch
+                k2 += 1
+            parts.append(cur)
+            if all(p_.startswith(('each ', 'for ', 'case ', 'if ')) for p_ in parts):
+                inner = ' | '.join(_norm_ctx_parts([_norm_embedded(p_) for p_ in parts]))
+            out += '[' + inner + ']'
+            i = j + 1
+            continue
+        out += text[i]
+        i += 1
+    return out
+
+
+def norm_line(line):
+    """normal form of one effect line `ctx1 | ctx2 : effect`: loop / case contexts keep their order, every `if` context is moved behind them and all
+    conditions are merged into one sorted conjunction (an `if` that does not depend on an inner loop may stand outside it or inside it, and
+    `if a { if b {..} }` is `if a && b {..}`: the summaries are equal)"""
+    if ' : ' not in line:
+        return _norm_embedded(line)
+    ctx, eff = line.split(' : ', 1)
+    parts = ctx.split(' | ')
+    if not all(p_.startswith(('each ', 'for ', 'case ', 'if ')) for p_ in parts):
+        return line
+    keep = _norm_ctx_parts(parts)
+    return ' | '.join(keep) + ' : ' + _norm_embedded(eff)
+
+
+def effects_of(facts, key, param_names=None, no_vars=False, full=False):
     ex = Exec(facts, key, param_names, no_vars=no_vars).run()
     lines = ex.summary()
     if no_vars:
         lines = [l for l in lines if not any(x in l for x in ('add_to_vars(', 'set_vars(', 'scalar_factor('))]
+    if full:
+        return lines, ex.unknown, ex.enum_subjects
     return lines, ex.unknown
+
+
+_UNK_MARK = re.compile(r'<[a-zA-Z][a-zA-Z0-9_ :.-]*>')
+
+
+def compare_summaries(facts, got, ref, enum_subjects):
+    """three-valued comparison of two effect summaries: (verdict, message).  Equal normal forms are equal; otherwise the guards of every
+    (frames, effect) pair are compared as boolean functions (guardsem): True when all are equivalent, False with a witness when some pair is
+    separated by a consistent valuation of understood conditions, None when the difference involves conditions that are not understood."""
+    from . import guardsem
+    gs, rs = set(norm_line(x) for x in got), set(norm_line(x) for x in ref)
+    if gs == rs:
+        return True, ''
+    th = guardsem.Theory(facts, enum_subjects)
+    res = guardsem.compare(sorted(gs), sorted(rs), th)
+    bad = [r for r in res if r[1] is False]
+    und = [r for r in res if r[1] is None]
+    missing, extra = sorted(rs - gs), sorted(gs - rs)
+    if bad:
+        (fr, eff), _v, wit = bad[0]
+        return False, 'the effect `%s`%s happens under different conditions than in the schema (e.g. when %s) — missing: %s ; unexpected: %s' % (
+            eff, (' in ' + ' | '.join(fr)) if fr else '', wit, missing[:3], extra[:3])
+    if und:
+        (fr, eff), _v, why = und[0]
+        return None, 'the guard of `%s` differs in spelling from the schema and equivalence is not decided: %s — schema: %s ; found: %s' % (eff, why, missing[:2], extra[:2])
+    return True, ''
 
 
 def check_schema(ck, rule, key, ref, facts=None, no_vars=True):
     facts = facts or ck.facts
-    got, unknown = effects_of(facts, key, no_vars=no_vars)
+    got, unknown, subjects = effects_of(facts, key, no_vars=no_vars, full=True)
     ck.fn(key)
-    import re as _re
-    unknown = unknown + [g for g in got if _re.search(r'<[a-zA-Z][a-zA-Z0-9_ :.-]*>', g)][:3]
+    unknown = unknown + [g for g in got if _UNK_MARK.search(g)][:3]
     ok_u = not unknown
-    gs, rs = set(norm_line(x) for x in got), set(norm_line(x) for x in ref)
-    missing = sorted(rs - gs)
-    extra = sorted(gs - rs)
+    verdict, msg = compare_summaries(facts, got, ref, subjects)
     if not ok_u:
         # the executor met constructs it cannot summarise: neither the summary nor its difference to the schema means anything
-        ck.ob3(rule, key + '/schema', None if (missing or extra) else True, ck.site(key), 'the body contains constructs the effect executor does not understand (%s); conformance to the schema is not decided' % unknown[:2])
+        ck.ob3(rule, key + '/schema', True if verdict is True else None, ck.site(key), 'the body contains constructs the effect executor does not understand (%s); conformance to the schema is not decided' % unknown[:2])
         return got
     ck.ob(rule, key + '/understood', True, ck.site(key), '', sample={'effects': len(got)})
-    ck.ob(rule, key + '/schema', not missing and not extra, ck.site(key),
-          'rule body does not conform to its schema — missing effects: %s ; unexpected effects: %s' % (missing[:4], extra[:4]),
-          sample={'effects': got[:12]})
+    ck.ob3(rule, key + '/schema', verdict, ck.site(key), 'rule body does not conform to its schema — ' + msg, sample={'effects': got[:12]})
     return got
 
 
